@@ -207,10 +207,21 @@ def tree_case(ctx, n, items, ybits, prune_p, base, tag, canonical=False, force=N
                 return 'none'
             d, ex = res
             return (';'.join(f'{k}={v}' for k, v in d.items()) or '-') + ' ' + ('.'.join(map(str, ex)) or '-')
-        cont = Builder().store_bit(1).store_ref(rc).end_cell()
+        # HashmapAugE: ahme_root$1 root:^(HashmapAug n X Y) extra:Y  /  ahme_empty$0 extra:Y  (the top-level extra is read since f2933e1)
+        te = (len(leaves) * 5 + 3 + n) % (1 << ybits)
+        tebits = format(te, f'0{ybits}b')
+        cont = Builder().store_bit(1).store_ref(rc).store_uint(te, ybits).end_cell()
+        dag2 = dag + f'|-1,1{tebits},{root}'
+        cont0 = Builder().store_bit(0).store_uint(te, ybits).end_cell()
+        dag0 = dag + f'|-1,0{tebits},-'
+        contx = Builder().store_bit(1).store_ref(rc).end_cell()          # extra missing: not a HashmapAugE, must raise
         ok = check('parse_hashmap_aug', lambda: parse_hashmap_aug(rc.begin_parse(), n, x, y), render, want, f'aug:{ybits}')
         ok = ok and check('load_hashmap_aug', lambda: rc.begin_parse().load_hashmap_aug(n, x, y), render, want, f'aug:{ybits}')
         ok = ok and check('load_hashmap_aug_e', lambda: cont.begin_parse().load_hashmap_aug_e(n, x, y), render, want, f'auge:{ybits}', cnode, dag2)
+        ok = ok and check('load_hashmap_aug_e', lambda: cont0.begin_parse().load_hashmap_aug_e(n, x, y), render, f'- {te}', f'auge:{ybits}', cnode, dag0)
+        gotx = call(lambda: contx.begin_parse().load_hashmap_aug_e(n, x, y))
+        ctx.count('parser:load_hashmap_aug_e:no-extra')
+        ctx.expect_model(f"hmparse {dag + f'|-1,1,{root}'} {cnode} {n} auge:{ybits}", 'err' if is_err(gotx) else 'ok ' + render(gotx), tag + ':auge-no-extra')
 
 
 def rand_items(rng, n, nbase):
